@@ -31,7 +31,7 @@ ASSUMPTIONS = [
 OFFSETS = [None, 0, 1, -1, 30, -30, 60, -60, 90, -90, 330, -330, 840, -840]
 MICROS = [0, 1000, 5000, 50000, 120000, 999000]
 TIMES = [(0, 0, 0), (12, 1, 2), (23, 59, 59)]
-DATES_UTC = [(1970, 1, 1), (1999, 12, 31), (2000, 2, 29), (2049, 12, 31)]
+DATES_UTC = [(1970, 1, 1), (1999, 12, 31), (2000, 2, 29), (2049, 12, 31), (1969, 1, 1), (1969, 12, 31), (2068, 12, 31), (2050, 1, 1)]
 DATES_GT = DATES_UTC + [(1000, 1, 1), (9999, 12, 31), (1, 1, 2), (99, 6, 15), (999, 12, 31)]
 
 
@@ -124,7 +124,19 @@ def part_a(R):
                     R.features[f] += 1
             # the produced text must itself denote the instant per X.680
             try:
-                inst, zoff = (TM.read_generalized if cls is useful.GeneralizedTime else TM.read_utc)(text)
+                if cls is useful.GeneralizedTime:
+                    inst, zoff = TM.read_generalized(text)
+                else:
+                    # the text carries no century: either reading may be the instant meant
+                    cands = []
+                    for century in (1900, 2000):
+                        try:
+                            cands.append(TM.read_utc(text, century))
+                        except TM.TimeSyntaxError:
+                            pass
+                    if not cands:
+                        raise TM.TimeSyntaxError(text)
+                    inst, zoff = ([c for c in cands if c[0] == want] or cands)[0]
                 if inst != want:
                     R.violation('a.text_instant', rec, '%s -> %r denotes another instant' % (dt.isoformat(), text),
                                 'text denoting the same instant', 'type.useful', feats, idx)
@@ -156,6 +168,31 @@ def grammar_strings():
         for hms in ('1201', '120102', '2359', '000000'):
             for z in ZONES_UT:
                 yield useful.UTCTime, '%02d%02d%02d%s%s' % (Y % 100, Mo, D, hms, z)
+
+
+def entry_outcomes(enc, cls, s):
+    """[(entry point, ('ok', octets of the time TLV) | ('refused',) | ('leak', name))]: value object; text plus type;
+    value object plus type; member of a SEQUENCE given as a mapping; member of a SEQUENCE OF given as a list"""
+    from pyasn1.type import univ, namedtype
+    seq = univ.Sequence(componentType=namedtype.NamedTypes(namedtype.NamedType('t', cls())))
+    sof = univ.SequenceOf(componentType=cls())
+
+    def run(fn, unwrap=0):
+        try:
+            data = fn()
+        except pyerr.PyAsn1Error:
+            return ('refused',)
+        except Exception as e:
+            return ('leak', type(e).__name__)
+        if unwrap:
+            # strip the container's header (definite: 2 octets; CER: 30 80 ... 00 00)
+            data = data[2:-2] if data[1:2] == b'\x80' else data[2:]
+        return ('ok', data)
+    return [('object', run(lambda: enc(cls(s)))),
+            ('text+type', run(lambda: enc(s, asn1Spec=cls()))),
+            ('object+type', run(lambda: enc(cls(s), asn1Spec=cls()))),
+            ('mapping member', run(lambda: enc({'t': s}, asn1Spec=seq), 1)),
+            ('list member', run(lambda: enc([s], asn1Spec=sof), 1))]
 
 
 def part_b(R):
@@ -199,6 +236,14 @@ def part_b(R):
             R.nontrivial((cls.__name__, s, ename))
             rec = {'part': 'b', 'cls': cls.__name__, 'text': s, 'enc': ename}
             f2 = feats | {'enc:' + ename}
+            # every way of handing the value to the encoder gives the same octets (or the same refusal)
+            entries = entry_outcomes(enc, cls, s)
+            base = entries[0][1]
+            for how, oc in entries[1:]:
+                R.evaluations += 1
+                if oc != base:
+                    R.violation('b.entry_point', dict(rec, entry=how), '%s gives %r' % (how, oc), 'as encode(value object): %r' % (base,),
+                                ename + '.encoder', f2 | {'entry:' + how}, idx)
             try:
                 data = enc(cls(s))
             except pyerr.PyAsn1Error:
